@@ -1188,7 +1188,16 @@ class CaseRunner:
             self._record(ob, pi, "ground-true", "ground", ob.note or None, 0.0)
             return
         if any(n.op == "false" for n in nodes):
-            viol = {"entry": [i for i, n in enumerate(nodes) if n.op == "false"][0], "model": {}, "kind": "ground"}
+            # a ground fact that is false on THIS path: the replay has to follow the same path, so the witness is a model of
+            # the path condition (domain /\ pc) from the solver
+            model = {}
+            if assumptions:
+                em = Emitter(norm)
+                asserts = self._domain_asserts(em, assumptions)
+                r2 = self.solve(em.script(asserts, get_values=list(em.decls)), "z3", self.budget.cex_timeout, want_model=True)
+                if r2.status == "sat" and r2.model is not None:
+                    model = r2.model
+            viol = {"entry": [i for i, n in enumerate(nodes) if n.op == "false"][0], "model": model, "kind": "ground"}
             return self.report_violation(ctx, ob, pi, viol, 0.0)
         em = Emitter(norm)
         negs = [em.ref(bnot(n)) for n in nodes if n.op != "true"]
